@@ -549,3 +549,75 @@ func TestC06GraceWindow(t *testing.T) {
 		ev.Case(evid.Hash("grace", option, others, flow, gap), true, "grace-window")
 	})
 }
+
+// TestC06TwoCreators: two creators whose privileges are incomparable ask for the same new login at the same instant,
+// each with privileges of its own.  At most one of them may be told "created", and the account that exists afterwards
+// holds no privilege that a creator who was told "created" lacks - in memory and in the account file.
+func TestC06TwoCreators(t *testing.T) {
+	ev := evid.New("C06", "TestC06TwoCreators")
+	defer ev.Flush()
+	rapid.Check(t, func(rt *rapid.T) {
+		rounds := rapid.IntRange(10, 40).Draw(rt, "rounds")
+		paths := [2]string{rapid.SampledFrom([]string{"new-user", "update-user"}).Draw(rt, "pathA"), rapid.SampledFrom([]string{"new-user", "update-user"}).Draw(rt, "pathB")}
+		privA := hlref.AccessOf(hlref.PrivCreateUser, hlref.PrivDownloadFile, hlref.PrivReadChat)
+		privB := hlref.AccessOf(hlref.PrivCreateUser, hlref.PrivUploadFile, hlref.PrivSendChat)
+		reqA := hlref.AccessOf(hlref.PrivDownloadFile, hlref.PrivReadChat)
+		reqB := hlref.AccessOf(hlref.PrivUploadFile, hlref.PrivSendChat)
+		opt := hlsim.Options{Agreement: "a", Accounts: []hlsim.AccountSpec{acct("admin", "Admin", "adminpw", allAccess), {Login: "ca", Name: "CA", Password: "pw", Access: privA}, {Login: "cb", Name: "CB", Password: "pw", Access: privB}}}
+		both := 0
+		inWorld(rt, opt, func(rt *rapid.T, w *hlsim.World) {
+			admin := loginAs(rt, w, "10.6.7.1:1", "admin", "adminpw", "admin")
+			cs := [2]*hlsim.Conn{loginAs(rt, w, "10.6.7.2:1", "ca", "pw", "ca"), loginAs(rt, w, "10.6.7.3:1", "cb", "pw", "cb")}
+			privs, reqs := [2]hlref.Access{privA, privB}, [2]hlref.Access{reqA, reqB}
+			for r := 0; r < rounds; r++ {
+				login := fmt.Sprintf("acct%03d", r)
+				var ids [2]uint32
+				for i, c := range cs {
+					ids[i] = c.NewID()
+					var tr hlref.Tran
+					if paths[i] == "new-user" {
+						tr = hlref.Tran{Type: hlref.TranNewUser, ID: ids[i], Fields: []hlref.Field{fld(hlref.FUserLogin, hlref.Obfuscate([]byte(login))), sfld(hlref.FUserName, "Made"), fld(hlref.FUserPassword, hlref.Obfuscate([]byte("mpw"))), fld(hlref.FUserAccess, reqs[i][:])}}
+					} else {
+						tr = hlref.Tran{Type: hlref.TranUpdateUser, ID: ids[i], Fields: []hlref.Field{fld(hlref.FData, subFields(fld(hlref.FUserLogin, hlref.Obfuscate([]byte(login))), sfld(hlref.FUserName, "Made"), fld(hlref.FUserPassword, hlref.Obfuscate([]byte("mpw"))), fld(hlref.FUserAccess, reqs[i][:])))}}
+					}
+					c.SendAsync(tr.Encode())
+				}
+				settle(0)
+				var told [2]bool
+				for i, c := range cs {
+					for _, t := range c.TakeInbox() {
+						if t.IsReply == 1 && t.ID == ids[i] && t.Err == 0 {
+							told[i] = true
+						}
+					}
+				}
+				if told[0] && told[1] {
+					both++
+				}
+				g := admin.Request(hlref.TranGetUser, sfld(hlref.FUserLogin, login))
+				if !okReply(g) {
+					if told[0] || told[1] {
+						rt.Fatalf("round %d: a creator was told %q was created, but no such account exists", r, login)
+					}
+					continue
+				}
+				var mem, disk hlref.Access
+				d, _ := g.Get(hlref.FUserAccess)
+				copy(mem[:], d)
+				if b, err := os.ReadFile(filepath.Join(w.UsersDir, login+".yaml")); err == nil {
+					var a hotline.Account
+					if yaml.Unmarshal(b, &a) == nil {
+						disk = hlref.Access(a.Access)
+					}
+				}
+				for i := range cs {
+					if told[i] && (!subset(mem, privs[i]) || !subset(disk, privs[i])) {
+						rt.Fatalf("round %d: two creators asked for %q at the same instant; creator %d (privileges %v, asked for %v) was told the account was created, but it holds %v in memory and %v in its file - privileges that creator lacks (the other creator was told created: %v)", r, login, i, bitsOf(privs[i]), bitsOf(reqs[i]), bitsOf(mem), bitsOf(disk), told[1-i])
+					}
+				}
+			}
+		})
+		ev.Case(evid.Hash("twocreators", rounds, paths[0], paths[1]), true, "two-creators")
+		_ = both
+	})
+}
